@@ -20,6 +20,8 @@ impl Addr {
     #[verifier::external_body] pub fn to_string(&self) -> (r: String) ensures r == self.s { unimplemented!() }
     #[verifier::external_body] pub fn as_str(&self) -> (r: &str) ensures r@ == self.s@ { unimplemented!() }
 }
+#[verifier::external_body] pub struct CanonicalAddr { _b: u8 }
+impl Clone for CanonicalAddr { #[verifier::external_body] fn clone(&self) -> (r: Self) ensures r == *self { unimplemented!() } }
 pub trait StrLike { spec fn str_view(&self) -> Seq<char>; }
 impl StrLike for String { open spec fn str_view(&self) -> Seq<char> { self@ } }
 impl StrLike for &String { open spec fn str_view(&self) -> Seq<char> { (**self)@ } }
